@@ -7,7 +7,7 @@ from .container import (INT_FIELDS, FileState, VBlockAbs, VDecoded, VHandle, c_b
 from .core import (And, B, I, If, Implies, Not, Or, OutOfReach, PyRaise, Seq, VBuiltin, VDate, VEnum, VList, VObj, VProperty, VStr, conc, eq, is_int, rng, zbool, zint)
 from .interp import EXC, ClassModel, FuncModel
 from .npmodel import NOATTR, VBytes, VBytesIO
-from .stream import ALit, APad, slen, stream_eq_goals
+from .stream import ALit, APad, AText, slen, stream_eq_goals
 from .tasks_container import (GENERATED, GETTERS, HAS, SETTERS, State, VClassOfType, VPath, _tdf_method, install_contracts, sym_comment)
 from .tasks_prims import _outcome, sym_text
 from .verify import Task
@@ -57,6 +57,7 @@ def access_tasks():
                 """a mutation issued outside a write-enabled context raises and leaves the file untouched"""
                 ctx = interp.ctx
                 install_contracts(interp)
+                interp.contracts["basictdf.basictdf._get_block_class"] = lambda interp, fn, a, k: VClassOfType(a[0])      # a mutator may read blocks
                 S = _mk_state(interp, modename)
                 if mname == "remove_block":
                     ctx.assume(And(z3.Const("rm_type", I) >= 0, z3.Const("rm_type", I) <= 16))
@@ -73,6 +74,7 @@ def access_tasks():
             def run(interp, sname=sname, ty=ty, modename=modename):
                 ctx = interp.ctx
                 install_contracts(interp)
+                interp.contracts["basictdf.basictdf._get_block_class"] = lambda interp, fn, a, k: VClassOfType(a[0])
                 S = _mk_state(interp, modename)
                 prop, _ = S.cls.lookup(sname)
                 o0 = len(getattr(interp, "opened", []))
@@ -115,6 +117,10 @@ def access_tasks():
     reader_task("get_block", lambda interp, S: interp.call(_tdf_method(interp, S, "get_block"), [S.tdf, VEnum(_blocktype(interp), z3.Const("rd_type", I))], {}), "basictdf.basictdf.Tdf.get_block")
     reader_task("getitem", lambda interp, S: interp.call(_tdf_method(interp, S, "__getitem__"), [S.tdf, z3.Const("rd_index", I)], {}), "basictdf.basictdf.Tdf.__getitem__")
     reader_task("repr", lambda interp, S: interp.call(_tdf_method(interp, S, "__repr__"), [S.tdf], {}), "basictdf.basictdf.Tdf.__repr__")
+    reader_task("blocks", prop_get("blocks"), "basictdf.basictdf.Tdf.blocks")
+    reader_task("len", lambda interp, S: interp.call(_tdf_method(interp, S, "__len__"), [S.tdf], {}), "basictdf.basictdf.Tdf.__len__")
+    reader_task("eq_self", lambda interp, S: interp.call(_tdf_method(interp, S, "__eq__"), [S.tdf, S.tdf], {}), "basictdf.basictdf.Tdf.__eq__")
+    reader_task("eq_other_kind", lambda interp, S: interp.call(_tdf_method(interp, S, "__eq__"), [S.tdf, "not a Tdf"], {}), "basictdf.basictdf.Tdf.__eq__")
 
     # ---- the context protocol
     def t_allow_write(interp):
@@ -322,7 +328,13 @@ def fs_tasks():
                 ev.type, ev.format, ev.offset, ev.size = 0, 0, 4096, 0
                 ev.creation_date = ev.last_modification_date = ev.last_access_date = now
                 ev.comment = GENERATED
+                n0 = len(E.atoms)
                 LAYOUTS["Entry"](ev, E)
+                # the comment of an unused slot is not part of the property: any 256 bytes
+                k_ = next(x for x in range(n0, len(E.atoms)) if isinstance(E.atoms[x], AText))
+                free = APad(256, dontcare=True)
+                free.any_content = True
+                E.atoms[k_:k_ + 3] = [free]
             for n, g in stream_eq_goals(ctx, content, E.atoms, tag + ".bytes"):
                 ctx.oblige(n, g, kind="C17")
             ctx.oblige(f"{tag}.file_is_exactly_4096_bytes", eq(slen(ctx, content), 4096), kind="C17")
